@@ -241,6 +241,42 @@ def plist_slice(eng, base, sl):
     return p
 
 
+def concat_sarr(eng, seq):
+    """np.concatenate of 1-D arrays of which at least one has a symbolic length: a fresh array, the operands one after the other."""
+    used(eng, "np.concatenate-1d: fresh array holding the operands one after the other")
+    parts = []
+    for x in seq:
+        if isinstance(x, NArr) and x.ndim == 1:
+            items, k = list(x.items), x.kind
+            parts.append((z3.IntVal(len(items)), k, (lambda i, kk, _it=items: _ite_items(_it, i, kk))))
+        elif isinstance(x, SArr) and not hasattr(x, "__pyvc_getitem__"):
+            parts.append((x.nz(), x.kind, (lambda i, kk, _a=x.arr, _k=x.kind: to_z3(Sym(z3.Select(_a, i), _k), kk))))
+        else:
+            raise Unsupported("np.concatenate of this operand with an array of symbolic length")
+    kinds = {k for _, k, _ in parts}
+    kind = "real" if "real" in kinds else ("int" if "int" in kinds else "bool")
+    i = z3.Int(fresh_name("ci"))
+    total, offs = z3.IntVal(0), []
+    for n, _, _ in parts:
+        offs.append(total)
+        total = z3.simplify(total + n)
+    body = parts[-1][2](i - offs[-1], kind)
+    for (n, _, get), off in reversed(list(zip(parts[:-1], offs[:-1]))):
+        body = z3.If(i < z3.simplify(off + n), get(i - off, kind), body)
+    out = SArr.fresh(kind, total, name="concat")  # a fresh array constant defined cell by cell (stable triggers), same meaning as the lambda term
+    eng.assume(z3.ForAll([i], z3.Implies(z3.And(i >= 0, i < total), z3.Select(out.arr, i) == body), patterns=[z3.Select(out.arr, i)]))
+    return out
+
+
+def _ite_items(items, i, kind):
+    if not items:
+        return to_z3(False if kind == "bool" else 0, kind)
+    z = to_z3(items[-1], kind)
+    for j in range(len(items) - 2, -1, -1):
+        z = z3.If(i == j, to_z3(items[j], kind), z)
+    return z
+
+
 def mask_filter(eng, base, mask):
     """a[mask]: fresh array of the selected elements in position order (assumed
     contract of numpy boolean indexing), with ghost maps kappa (out pos -> in pos)
